@@ -122,6 +122,15 @@ impl<'a> Gen<'a> {
                 // `p N[..., last]` spreads the flowing value; unnamed result needs plain `[..., last]`
                 format!("{} {}[..., {}]", p, n.clone().unwrap_or_default(), last)
             }
+            _ if roll < 3 => {
+                // a branch whose tuple pattern repeats a name (an equality requirement) in front of a branch for the same variant
+                self.feat("repeated_name_branch_before_same_variant_branch");
+                let (k1, k2) = (self.rng.range(0, 3), self.rng.range(0, 3));
+                let pick = self.rng.range(0, 2);
+                let x = self.of(t, cx, d - 1); let y = self.of(t, cx, d - 1); let z = self.of(t, cx, d - 1);
+                let (a, b, c) = (self.name(), self.name(), self.name());
+                format!("[{} {{ | ={} => A[{}] | B[] }}, {}] {{ | =[A[{}], {}] => {} | =[A[{}], {}] => {} | {} }}", pick, pick.min(1), k1, k2, a, a, x, b, c, y, z)
+            }
             _ if roll < 62 => self.total_block(t, cx, d),
             _ if roll < 72 => {
                 // { bindings, result }
@@ -482,6 +491,19 @@ impl<'a> Gen<'a> {
                     steps.push(format!("{} = {{ {} = {}, {} }}", w, c, u, tail)); cx.bind(&w, t);
                     continue;
                 }
+            }
+            if self.rng.chance(1, 14) {
+                // a tuple whose field is union-typed, then an unrelated tuple of the same shape with a narrower field, then the first again
+                self.feat("same_shaped_tuples_with_wider_and_narrower_fields");
+                let (t1, t2) = (Ty::Int, Ty::Bin);
+                let (a, b, w, r) = (self.name(), self.name(), self.name(), self.name());
+                let first_is_int = self.rng.chance(1, 2);
+                let l1 = self.lit(&t1); let l2 = self.lit(&t2); let third_is_int = self.rng.chance(1, 2); let l3 = self.lit(if third_is_int { &t1 } else { &t2 });
+                steps.push(format!("{} = [{{ | 1 ={} => {} | {} }}]", a, if first_is_int { 1 } else { 2 }, l1, l2));
+                steps.push(format!("{} = [{}]", b, l3));
+                steps.push(format!("{} = {}.0 {{ | =('bin){} => 1 | 2 }}", r, a, w));
+                cx.bind(&a, Ty::Tup(None, vec![(None, Ty::union(vec![t1.clone(), t2.clone()]))])); cx.bind(&b, Ty::Tup(None, vec![(None, Ty::union(vec![t1, t2]))])); cx.bind(&r, Ty::Int); cx.flow = Some(Ty::ok());
+                continue;
             }
             if self.rng.chance(1, 3) {
                 self.last_fn_recursive = false;
